@@ -229,7 +229,7 @@ def kind_of_file(case, name):
     return f['kind'] if f else 'markup'
 
 
-def render_real(case, dirs, auto_reload):
+def render_real(case, dirs, auto_reload, prepared=None):
     """outcomes of answering the case's requests one after the other through one fresh
     TemplateLoader(dirs, auto_reload=…): a list of ['ok', events] | ['err', class name] | ['skip', 'budget']"""
     from genshi.template import TemplateLoader, NewTextTemplate, MarkupTemplate
@@ -283,6 +283,10 @@ def render_real(case, dirs, auto_reload):
                 outs.append(['skip', 'budget'])
             except Exception as e:  # noqa
                 outs.append(['err', exc_name(e)])
+            if prepared is not None:
+                # the loader after this request (which may have failed): the templates it holds prepared
+                items = loader._cache._dict
+                prepared.append(sorted(str(k) for k in items if getattr(items[k].value, '_prepared', False)))
     finally:
         sys.setrecursionlimit(old)
     return outs
@@ -365,9 +369,10 @@ def run_real(case, base):
     os.makedirs(base, exist_ok=True)
     try:
         dirs = materialise(case, base)
-        a, b = render_real(case, dirs, False), render_real(case, dirs, True)
+        prep = []
+        a, b = render_real(case, dirs, False, prep), render_real(case, dirs, True)
         return {'inline': a[0], 'runtime': b[0], 'inline_then': a[1:], 'runtime_then': b[1:],
-                'kept': kept_static_real(case, dirs)}
+                'inline_prepared': prep, 'kept': kept_static_real(case, dirs)}
     finally:
         shutil.rmtree(base, ignore_errors=True)
 
